@@ -285,6 +285,32 @@ def b_divdc3(E, st, fr, ins, args):
     if is_conc_real(d) and d == 0:
         # real divisor
         return (E.rdiv(st, a, c, ins), E.rdiv(st, b, c, ins))
+    # |c + i d|^2 = c^2 + d^2 vanishes iff c = d = 0: decide that on the two (smaller) numerators, then the divisor is positive
+    cn, cd = rparts(c)
+    dn, dd = rparts(d)
+    from .irs import mark_pos, is_pos, _neg
+    if is_pos(cd) and is_pos(dd):
+        both0 = z3.And(_rv(cn) == 0, _rv(dn) == 0)
+        r, m = E.feasible(st, both0)
+        if r == 'sat':
+            E.res.issues.append(dict(kind='divzero', msg='complex division by zero possible', where=E.where(st),
+                                     inputs=E.model_of(st, m), stack=[f.fn.name for f in st.frames]))
+        if r != 'unsat':
+            st.path.append(z3.Not(both0))
+            st.model = None
+            if r == 'unknown':
+                st.unsure = True
+        dnum, dden = rparts(den)
+        if not is_conc_real(dnum):
+            mark_pos(dnum)
+        # (x/den) with den = dnum/dden > 0
+        def div_pos(x):
+            xn, xd = rparts(x)
+            nd = _mul(xd, dnum)
+            if is_pos(xd):
+                mark_pos(nd)
+            return mk_real(_mul(xn, dden), nd)
+        return (div_pos(radd(rmul(a, c), rmul(b, d))), div_pos(rsub(rmul(b, c), rmul(a, d))))
     re = E.rdiv(st, radd(rmul(a, c), rmul(b, d)), den, ins)
     im = E.rdiv(st, rsub(rmul(b, c), rmul(a, d)), den, ins)
     return (re, im)
